@@ -22,6 +22,10 @@ import (
 type c07Params struct {
 	Part  int `json:"part"`
 	Parts int `json:"parts"`
+	// Kind: "" population batch; "known" replays the known-finding witnesses (c07_known.go);
+	// "witness" is the child process of such a batch executing one witness.
+	Kind    string `json:"kind,omitempty"`
+	Witness string `json:"witness,omitempty"`
 }
 
 type c07Sizes struct {
@@ -247,6 +251,14 @@ func c07Run(w *fw.W, b fw.Batch) {
 	defer c07Profile()()
 	var p c07Params
 	json.Unmarshal(b.Params, &p)
+	switch p.Kind {
+	case "known":
+		c07RunKnown(w, "")
+		return
+	case "witness":
+		c07RunWitnessChild(w, p.Witness)
+		return
+	}
 	if p.Parts <= 0 {
 		p.Parts = 1
 	}
@@ -345,6 +357,11 @@ func c07Finish(d *fw.D) {
 }
 
 func c07Replay(w *fw.W, raw json.RawMessage) {
+	var wc c07WitnessCase
+	if json.Unmarshal(raw, &wc) == nil && wc.Witness != "" {
+		c07RunKnown(w, wc.Witness)
+		return
+	}
 	var c c07Case
 	if json.Unmarshal(raw, &c) != nil {
 		return
@@ -385,6 +402,7 @@ func init() {
 			"rule sets whose own semantics grow a variable exponentially (setvar:tx.a=%{tx.a}%{tx.a} run once per matched value) are not generated: the unbounded work is what that configuration asks for, not a defect of the interpreter (seen once during development: 2^n bytes after n matches)",
 			"kept out of the population (candidate known finding, notes/findings/C07.md): audit logging with parts H and K of a rule that matched hundreds of values costs ProcessLogging super-linear CPU (class cpu:ProcessLogging); configurations mentioning the audit engine get JSON/XML bodies nested at most 48 levels so that one rule matches few values",
 			"kept out of the population (candidate known finding, notes/findings/C07.md): the JSON body processor builds one key per nesting level by copying the parent key (quadratic in the depth); response bodies have no depth limit (the repository's own test pins that), so a 32 KiB response of '[' costs > 15 CPU-s in ProcessResponseBody (class cpu:ProcessResponseBody). Generated bodies are cut at 2048 unclosed brackets and SecRequestBodyJsonDepthLimit is swept up to 2000",
+			"the two listed known findings (known_findings.json: auditlog-hk-amplification, json-depth-quadratic) are replayed in one extra batch per run, each witness in a child process that stops observing once the monitored call has used 20 CPU-s on its thread; only these witnesses can produce the classes cpu:ProcessLogging:auditlog-hk-witness and cpu:ProcessResponseBody:json-depth-witness, every other input that exceeds the bound is reported as cpu:<call> or cpu:<call>:still-running",
 			"@inspectFile is given a non-existent program path and @rbl an .invalid zone: no external program or network is needed",
 		},
 		Required: []string{"names_complete", "configs_accepted", "configs_rejected", "mutants_accepted", "transactions", "transactions_with_matched_rules", "transactions_interrupted"},
@@ -395,6 +413,9 @@ func init() {
 				p, _ := json.Marshal(c07Params{Part: i, Parts: sz.batches})
 				bs = append(bs, fw.Batch{Index: i, Flavour: "plain", Params: p, GOMAXPROCS: 1, TimeoutS: 3600})
 			}
+			// one more batch, in both tiers: the witnesses of the listed known findings (two child processes)
+			kp, _ := json.Marshal(c07Params{Kind: "known"})
+			bs = append(bs, fw.Batch{Index: sz.batches, Flavour: "plain", Params: kp, GOMAXPROCS: 2, TimeoutS: 3600})
 			return bs
 		},
 		Run:    c07Run,
